@@ -8,7 +8,7 @@ COQ_FILES = G.COQ_MODEL_FILES + ["Proofs/LowerNames.v", "Proofs/Link.v", "Props/
 PROPS = "Props/C02.v"
 THEOREMS = ["C02_json_name_eq_protoc", "C02_map_entry_name_eq_protoc", "C02_oo_name_total", "C02_oo_name_is_synth",
             "C02_process_p3opt_total", "C02_synthetic_oneof_names_fresh", "C02_synthetic_oneof_names_eq_protoc",
-            "C02_resolved_type_absolute", "C02_resolved_extendee_absolute", "C02_resolved_rpc_absolute", "C02_range_max"]
+            "C02_resolved_type_absolute", "C02_resolved_extendee_absolute", "C02_resolved_rpc_absolute", "C02_range_max", "C02_message_ranges_limit"]
 AXIOMS_OK = []
 TRUSTED = [
     "protoc is not available: its descriptors are specified by Model/ProtocDescriptor.v (ToJsonName, MapEntryName, GenerateSyntheticOneofs) and "
